@@ -6,7 +6,7 @@ Pipeline per harness (see DESIGN.md section 2):
   -> on violation: cbmc --trace, extraction of the solver's input values,
      native replay of the same harness (gcc + ASan/UBSan, -DVF_REPLAY).
 """
-import json, os, re, resource, shlex, shutil, signal, subprocess, sys, time, hashlib
+import atexit, ctypes, json, os, re, resource, shlex, shutil, signal, subprocess, sys, time, hashlib
 from concurrent.futures import ThreadPoolExecutor
 from dataclasses import dataclass, field
 
@@ -109,10 +109,35 @@ def native_sources():
     return [s for s in srcs if os.path.exists(s)]
 
 
+_LIVE = set()
+
+
+def _reap(signum=None, frame=None):
+    for pid in list(_LIVE):
+        try:
+            os.killpg(pid, signal.SIGKILL)
+        except Exception:
+            pass
+    if signum is not None:
+        os._exit(128 + signum)
+
+
+atexit.register(_reap)
+for _s in (signal.SIGTERM, signal.SIGINT, signal.SIGHUP):
+    try:
+        signal.signal(_s, _reap)
+    except Exception:
+        pass
+
+
 def sh(cmd, cwd=None, timeout=None, env=None, mem_gb=None, stdin=None):
     """run, return (rc, stdout, stderr, wall, maxrss_kb); rc=-9 on timeout"""
     def pre():
         os.setsid()
+        try:  # die with the driver (PR_SET_PDEATHSIG): a killed driver must not leave solvers behind
+            ctypes.CDLL(None).prctl(1, signal.SIGKILL)
+        except Exception:
+            pass
         if mem_gb:
             lim = int(mem_gb * (1 << 30))
             resource.setrlimit(resource.RLIMIT_AS, (lim, lim))
@@ -120,9 +145,14 @@ def sh(cmd, cwd=None, timeout=None, env=None, mem_gb=None, stdin=None):
     p = subprocess.Popen(cmd, cwd=cwd, env=env, stdout=subprocess.PIPE, stderr=subprocess.PIPE,
                          stdin=subprocess.PIPE if stdin is not None else subprocess.DEVNULL,
                          preexec_fn=pre)
+    _LIVE.add(p.pid)
     try:
         out, err = p.communicate(input=stdin, timeout=timeout)
         rc = p.returncode
+        try:  # back ends started by cbmc (z3, kissat) live in the same group
+            os.killpg(p.pid, signal.SIGKILL)
+        except (ProcessLookupError, PermissionError):
+            pass
     except subprocess.TimeoutExpired:
         try:
             os.killpg(p.pid, signal.SIGKILL)
@@ -130,6 +160,7 @@ def sh(cmd, cwd=None, timeout=None, env=None, mem_gb=None, stdin=None):
             pass
         out, err = p.communicate()
         rc = -9
+    _LIVE.discard(p.pid)
     ru = resource.getrusage(resource.RUSAGE_CHILDREN)
     return rc, out.decode(errors="replace"), err.decode(errors="replace"), time.time() - t0, ru.ru_maxrss
 
@@ -334,7 +365,10 @@ def run_harness(ctx, h):
     res.wall = time.time() - t0
     res.rss_mb = rss / 1024.0
     if rc == -9:
-        res.status, res.note = "inconclusive", "timeout after %ds" % h.timeout
+        if wall >= h.timeout - 1:
+            res.status, res.note = "inconclusive", "timeout after %ds" % h.timeout
+        else:
+            res.status, res.note = "inconclusive", "killed by SIGKILL after %ds (most likely the kernel's out-of-memory killer: other heavy runs at the same time?)" % wall
         return res
     results, status, msgs = parse_cbmc_json(out)
     for m in msgs:
